@@ -20,6 +20,9 @@ type Storage struct {
 	nGet, nSet, nDel             int
 	Log                          []string
 	NoTTL                        bool // ignore TTLs (a backend that never expires)
+	// Retain: keep the value slice passed to Set and hand the same slice out from Get, as gofiber's in-process memory
+	// driver does (a caller that re-uses the buffer after Set, or writes into what Get returned, corrupts the record)
+	Retain bool
 }
 
 type entry struct {
@@ -50,7 +53,10 @@ func (s *Storage) Get(key string) ([]byte, error) {
 		if e.exp != 0 && !s.NoTTL && Now() >= e.exp {
 			delete(s.m, key)
 		} else {
-			out = append([]byte(nil), e.v...)
+			out = e.v
+			if !s.Retain {
+				out = append([]byte(nil), e.v...)
+			}
 		}
 	}
 	s.log("get %s -> %d bytes fail=%v", key, len(out), fail)
@@ -69,7 +75,10 @@ func (s *Storage) Set(key string, val []byte, exp time.Duration) error {
 	n := s.nSet
 	fail := s.FailSet[n]
 	if !fail && key != "" && len(val) > 0 {
-		e := entry{v: append([]byte(nil), val...)}
+		e := entry{v: val}
+		if !s.Retain {
+			e.v = append([]byte(nil), val...)
+		}
 		if exp > 0 {
 			secs := uint32(exp / time.Second)
 			if secs == 0 {
